@@ -193,7 +193,35 @@ func c15Worlds() []c15World {
 		mk("over-limit", wire.GRPC, "Unary", "proto", "", webOK, nil, MkMsg(`{"extraText":"`+strings.Repeat("L", 9000)+`"}`)),
 	}
 	w3.probes = []c15Req{g1, g2, g3, mk("web-json-gzip", wire.GRPCWeb, "Unary", "json", "gzip", webOK, nil, big)}
-	return []c15World{w1, w2, w3}
+	// world 4: two services whose type resolvers differ (a generated service resolves against
+	// the global registry, the dynamic one against its own files): nothing resolved for one
+	// service may stick for the other. The probe carries a google.protobuf.Any of a type that
+	// only the dynamic service's resolver knows.
+	w4 := c15World{name: "two services, different resolvers (target gRPC/proto)", cfg: world.Config{Protocols: []vanguard.Protocol{vanguard.ProtocolGRPC}, Codecs: []string{"proto"}, NoCompress: true, MaxMsg: 8000,
+		MoreServices: func(h http.Handler) []*vanguard.Service {
+			return []*vanguard.Service{vanguard.NewService("vanguard.test.v1.LibraryService", h, vanguard.WithTargetProtocols(vanguard.ProtocolGRPC), vanguard.WithTargetCodecs("proto"))}
+		}}}
+	anyMsg := MkMsg(`{"name":"outer","anyValue":{"@type":"type.googleapis.com/verif.v1.Msg","name":"inside any","num":3}}`)
+	libReq := func(name string, form wire.Form, codec string) c15Req {
+		q := c15Req{name: name, form: form, close: true, spec: func() *drive.ReqSpec {
+			cr := &wire.ClientReq{Form: form, Path: "/vanguard.test.v1.LibraryService/GetBook", Codec: codec, Msgs: [][]byte{[]byte(`{"name":"shelves/1/books/2"}`)}}
+			return world.SpecFromClient(cr)
+		}}
+		q.raw = func(b *world.Backend, w http.ResponseWriter, r *http.Request) {
+			// an empty Book, as a gRPC response
+			w.Header().Set("Content-Type", "application/grpc+proto")
+			w.WriteHeader(200)
+			_, _ = w.Write([]byte{0, 0, 0, 0, 0})
+			w.Header().Set(http.TrailerPrefix+"Grpc-Status", "0")
+		}
+		return q
+	}
+	a1 := mk("any-connect-json", wire.ConnectUnary, "Unary", "json", "", echo(`{"name":"r","anyValue":{"@type":"type.googleapis.com/verif.v1.Msg","name":"answer"}}`), nil, anyMsg)
+	a2 := mk("any-grpcweb-json", wire.GRPCWeb, "Unary", "json", "", echo(`{"name":"r2"}`), nil, anyMsg)
+	a3 := mk("plain-connect-json", wire.ConnectUnary, "Unary", "json", "", echo(`{"name":"r3"}`), nil, small)
+	w4.history = []c15Req{libReq("library-connect-json", wire.ConnectUnary, "json"), libReq("library-grpcweb-json", wire.GRPCWeb, "json"), a1, a2, a3}
+	w4.probes = []c15Req{a1, a2, a3, libReq("library-connect-json", wire.ConnectUnary, "json")}
+	return []c15World{w1, w2, w3, w4}
 }
 
 type protoMessage = proto.Message
@@ -276,7 +304,7 @@ func init() {
 		ID:    "C15",
 		Level: "model_checking",
 		Rule: "Explicit-state search over request histories on one Transcoder (deterministic maximal-reuse pool through the verifsync shim): world 1 (gRPC/proto/gzip target): alphabet of 21 requests (6 clean RPCs covering re-framing, re-encoding and compression on both legs incl. a 5 kB message that grows pooled buffers; validation failures, cuts inside envelope / payload / flat body, over-limit, four kinds of corrupt gzip, undecodable message, corrupt gzip response, early return, backend panic before/after its first write) and 6 probes; " +
-			"world 2 (REST target): 8 requests over shared route targets and 5 probes; world 3 (gRPC-Web target reached by re-framing): 10 requests incl. five malformed trailer / message frames from the backend, 4 probes. Every history of depth <= 3 (quick) / <= 4 (thorough) is replayed on a fresh Transcoder followed by each probe; the probe's semantic outcome (client and backend side) must equal its outcome on a fresh Transcoder; no pool element may be Put twice; poison must not reach outputs. " +
+			"world 2 (REST target): 8 requests over shared route targets and 5 probes; world 3 (gRPC-Web target reached by re-framing): 10 requests incl. five malformed trailer / message frames from the backend, 4 probes; world 4 (a generated and a dynamic service with different type resolvers on one Transcoder): 5 requests incl. google.protobuf.Any of a dynamically known type, 4 probes. Every history of depth <= 3 (quick) / <= 4 (thorough) is replayed on a fresh Transcoder followed by each probe; the probe's semantic outcome (client and backend side) must equal its outcome on a fresh Transcoder; no pool element may be Put twice; poison must not reach outputs. " +
 			"A state is a history (no merging); a transition is one replayed request. Non-trivial = distinct pool-state key (multiset of pooled buffer capacities and pooled codec objects) reached before a probe.",
 		Assume:  []string{"the deterministic LIFO pool of the shim is the maximal-reuse behaviour the real sync.Pool may exhibit", "every explored trace is an execution of the implementation itself (no separate model)"},
 		Custom:  c15Custom,
